@@ -219,7 +219,7 @@ class Ctx:
             p = subprocess.Popen([PY, "-m", "vp.worker", target, str(inp), str(outp), str(wscr),
                                   str(self.seed), self.prop, self.tier],
                                  cwd=str(VERIF), env=e, stdout=subprocess.DEVNULL,
-                                 stderr=open(str(outp) + ".err", "wb"))
+                                 stderr=open(str(outp) + ".err", "wb"), start_new_session=True)
             procs.append((p, sl, outp, wscr))
         deadline = time.time() + timeout
         results = [None] * len(cases)
@@ -227,7 +227,10 @@ class Ctx:
             try:
                 p.wait(timeout=max(1, deadline - time.time()))
             except subprocess.TimeoutExpired:
-                p.kill()
+                try:   # the worker's whole process group (pool children included)
+                    os.killpg(p.pid, 9)
+                except OSError:
+                    p.kill()
                 p.wait()
                 self.count("worker_watchdog_fired")
             if outp.exists():
@@ -241,6 +244,10 @@ class Ctx:
             try:
                 err = Path(str(outp) + ".err").read_text()[-2000:]
             except Exception:
+                pass
+            try:   # stragglers (e.g. pool children of a finished worker) must not outlive the check
+                os.killpg(p.pid, 9)
+            except OSError:
                 pass
             for i, c in sl:
                 if results[i] is None:
